@@ -29,7 +29,7 @@ class Transition:
 
     __slots__ = (
         "cfg", "alpha", "history", "op", "pre", "outcome", "world", "post", "pre_bytes", "post_bytes",
-        "pre_tmp", "post_tmp", "pre_dbdir", "post_dbdir", "pre_valid", "post_valid", "_ref",
+        "pre_tmp", "post_tmp", "pre_dbdir", "post_dbdir", "pre_valid", "post_valid", "_ref", "extra",
     )
 
     def ref(self):
@@ -70,7 +70,8 @@ def _expand_inner(ci, history, pre):
         T.pre_bytes = w.file_bytes()
         T.pre_tmp, T.pre_dbdir = (w.tmp_listing(), w.db_listing()) if w.path else (None, None)
         T.pre_valid = w.db.index.valid
-        T.outcome = w.apply(op)
+        T.extra = None
+        T.outcome = check.apply(w, op, T)
         T.post_bytes = w.file_bytes()
         T.post_tmp, T.post_dbdir = (w.tmp_listing(), w.db_listing()) if w.path else (None, None)
         T.post_valid = w.db.index.valid
